@@ -48,9 +48,12 @@ class DimUnsupported(Exception):
 class N:
     """numeric scalar or elementwise array: scales by c**d, shifts by s*log(c); lit = python number if a literal"""
 
-    def __init__(self, d, s, lit=None, rank=None, pz=False):
+    def __init__(self, d, s, lit=None, rank=None, pz=False, taint=False):
         self.d, self.s, self.lit, self.rank = d, s, lit, rank
         self.pz = pz  # polymorphic literal (0, inf, nan): a fresh dimension at every broadcast position
+        # tainted: a log-shifted value times a non-literal (a normalising constant such as b*log(t)): how it moves
+        # under a change of units is not expressible; it may only flow into results the contract declares 'taint'
+        self.taint = taint
 
 
 class Cols:
@@ -79,6 +82,13 @@ class Opaque:
         self.what = what
 
 
+class Obj:
+    """record (EPFactors): field -> type"""
+
+    def __init__(self, fields):
+        self.fields = dict(fields)
+
+
 class Fn:
     def __init__(self, node):
         self.node = node
@@ -97,7 +107,7 @@ DIM_REGISTRY = {}
 
 class DimContract:
     def __init__(self, name, params, returns, poly=(), locals=None, strong=None, consts=None, fields=None,
-                 assumed=False, notes="", props=(), gen=None, inline=None):
+                 assumed=False, notes="", props=(), gen=None, inline=None, axes=("T",)):
         self.name = name            # 'approx.approximate_gamma_iqr'
         self.params = params        # {param: spec}
         self.returns = returns      # spec
@@ -111,6 +121,7 @@ class DimContract:
         self.props = tuple(props)
         self.gen = gen              # rt.gens generator name for the homogeneity replay
         self.inline = inline
+        self.axes = tuple(axes)     # unit axes the homogeneity replay scales
         DIM_REGISTRY[name] = self
 
 
@@ -176,6 +187,8 @@ class Checker:
                 return NoneT()
             if spec == "any":
                 return Poly()
+            if spec == "taint":
+                return N(self.zero(), self.zero(), taint=True)
             if spec.startswith("log:"):
                 return N(self.zero(), self._spec_vec(spec[4:], inst, basis))
             return N(self._spec_vec(spec, inst, basis), self.zero())
@@ -188,6 +201,8 @@ class Checker:
             return Cols([self.from_spec(s, inst, basis) for s in items], lead)
         if kind == "tuple":
             return Tup([self.from_spec(s, inst, basis) for s in spec[1:]])
+        if kind == "obj":
+            return Obj({k: self.from_spec(v, inst, basis) for k, v in spec[1].items()})
         raise ValueError(spec)
 
     def _spec_vec(self, text, inst, basis):
@@ -225,6 +240,9 @@ class Checker:
 
     def dimless(self, t, kind, node):
         t = self.num(t, node)
+        if t.taint:
+            self.require(False, kind + "-tainted", node)
+            return
         self.require(z3.And(self.vzero(t.d), self.vzero(t.s)), kind, node)
 
     def num(self, t, node):
@@ -245,9 +263,19 @@ class Checker:
         if isinstance(b, Lst):
             b = b.elem
         if isinstance(a, N) and isinstance(b, N):
+            if a.taint:      # the declared / first side accepts anything
+                return
+            if b.taint:
+                self.require(False, kind + "-tainted", node)
+                return
             self.require(z3.And(self.veq(a.d, b.d), self.veq(a.s, b.s)), kind, node)
             return
         if isinstance(a, NoneT) and isinstance(b, NoneT):
+            return
+        if isinstance(a, Obj) and isinstance(b, Obj):
+            for k in a.fields:
+                if k in b.fields:
+                    self.unify(a.fields[k], b.fields[k], kind, node)
             return
         ai = a.cols if isinstance(a, Cols) else a.items if isinstance(a, Tup) else None
         bi = b.cols if isinstance(b, Cols) else b.items if isinstance(b, Tup) else None
@@ -258,6 +286,17 @@ class Checker:
         if isinstance(a, Opaque) and isinstance(b, Opaque):
             return
         self.require(False, kind + "-shape", node)
+
+    allow_taint = True
+
+    def may_shift(self, t):
+        """is the log shift of t possibly non-zero given the obligations so far?"""
+        self.solver.push()
+        self.solver.add(z3.Not(self.vzero(t.s)))
+        r = self.solver.check()
+        self.solver.pop()
+        return r == z3.sat and not all(z3.is_rational_value(z3.simplify(x)) and z3.simplify(x).as_fraction() == 0
+                                       for x in t.s)
 
     def inst(self, t):
         if isinstance(t, N) and t.pz:
@@ -316,6 +355,11 @@ class Checker:
                 return
             self.expr(s.value)
         elif isinstance(s, ast.Assign):
+            al = self.dotted(s.value) if isinstance(s.value, ast.Attribute) else None
+            if al and al.startswith(("hypergeo.", "approx.")) and len(s.targets) == 1 \
+                    and isinstance(s.targets[0], ast.Name):
+                self.env[s.targets[0].id] = Opaque("fn:" + al)   # f = hypergeo._hyp2f1_laplace
+                return
             v = self.expr(s.value)
             for t in s.targets:
                 self.assign(t, v, s)
@@ -357,7 +401,7 @@ class Checker:
 
     def strip(self, v):
         if isinstance(v, N):
-            return N(v.d, v.s, None, v.rank)
+            return N(v.d, v.s, None, v.rank, taint=v.taint)
         return v
 
     def assign(self, target, v, node):
@@ -456,7 +500,7 @@ class Checker:
 
     def elem_type(self, v, node):
         if isinstance(v, N):
-            return N(v.d, v.s, None, None if v.rank is None else max(v.rank - 1, 0))
+            return N(v.d, v.s, None, None if v.rank is None else max(v.rank - 1, 0), taint=v.taint)
         if isinstance(v, Cols):
             if v.lead == 0:
                 raise DimUnsupported(f"iteration over a row with mixed columns at line {node.lineno}")
@@ -555,7 +599,10 @@ class Checker:
                 self.unify_bcast(left, r, "compare", e)
             else:
                 a, b = self.num(left, e), self.num(r, e)
-                self.require(z3.And(self.veq(a.d, b.d), self.veq(a.s, b.s)), "compare", e)
+                if a.taint or b.taint:
+                    self.require(False, "compare-tainted", e)
+                else:
+                    self.require(z3.And(self.veq(a.d, b.d), self.veq(a.s, b.s)), "compare", e)
                 rank = _rmax(a.rank, b.rank)
             left = r
         return N(self.zero(), self.zero(), rank=rank)
@@ -587,6 +634,14 @@ class Checker:
     def binop_types(self, a, b, op, node):
         a, b = self.num(a, node), self.num(b, node)
         rank = _rmax(a.rank, b.rank)
+        if a.taint or b.taint:
+            return N(self.zero(), self.zero(), None, rank, taint=True)
+        if isinstance(op, ast.Mult) and a.lit is None and b.lit is None and self.allow_taint \
+                and (self.may_shift(a) or self.may_shift(b)):
+            # log-shifted value times a non-literal: well defined only if the other factor is a pure number
+            other = b if self.may_shift(a) else a
+            self.require(z3.And(self.vzero(other.d), self.vzero(other.s)), "mul-logshift", node)
+            return N(self.zero(), self.zero(), None, rank, taint=True)
         if isinstance(op, (ast.Add, ast.Sub)):
             kind = "add" if isinstance(op, ast.Add) else "sub"
             self.require(z3.And(self.veq(a.d, b.d),
@@ -642,7 +697,7 @@ class Checker:
                     elif k == "new":
                         r += 1
                 r = max(r, 0)
-            return N(b.d, b.s, None, r)
+            return N(b.d, b.s, None, r, taint=b.taint)
         if isinstance(base, Cols):
             lead = base.lead
             used = 0
@@ -718,6 +773,10 @@ class Checker:
                 if c is not None:
                     return N(self.zero(), self.zero(), rank=0)
         base = self.expr(e.value)
+        if isinstance(base, Obj):
+            if e.attr not in base.fields:
+                raise DimUnsupported(f"field .{e.attr} at line {e.lineno} has no dimension in the contract")
+            return base.fields[e.attr]
         if e.attr in ("size", "shape", "ndim", "dtype"):
             if e.attr == "shape":
                 return N(self.zero(), self.zero(), rank=1)
@@ -779,6 +838,8 @@ class Checker:
             return self.method(e, e.func.value, e.func.attr, args, kw)
         if f in self.env and isinstance(self.env[f], Fn):
             return self.inline(self.env[f].node, args, e)
+        if f in self.env and isinstance(self.env[f], Opaque) and self.env[f].what.startswith("fn:"):
+            f = self.env[f].what[3:]
         short = f.split(".")[-1]
         if f in self.SAME:
             v = self.expr(args[0])
@@ -808,7 +869,12 @@ class Checker:
             if isinstance(first, N):
                 return N(first.d, first.s, None, 1 if short in ("append", "union1d") else _rmaxl([getattr(v, "rank", None) for v in vs]))
             return first
-        if f in ("np.concatenate", "np.hstack", "np.stack", "np.vstack", "np.column_stack"):
+        if f == "np.column_stack":
+            v = self.expr(args[0])
+            if isinstance(v, Tup):
+                return Cols([self.strip(self.num(x, e)) for x in v.items], 1)
+            raise DimUnsupported(f"np.column_stack of a non-tuple at line {e.lineno}")
+        if f in ("np.concatenate", "np.hstack", "np.stack", "np.vstack"):
             v = self.expr(args[0])
             return self.strip(self.elem_type(v, e)) if isinstance(v, (Tup, Lst)) else v
         if f in ("np.log", "log", "math.log", "np.log2", "np.log10"):
